@@ -79,6 +79,8 @@ const baseDefs = `{{define "h"}}{{.Y}}{{.S}}{{.Y}}{{end}}` +
 	`{{define "c"}}<a href="{{template "h" .}}">t</a>{{end}}` +
 	`{{define "bad"}}<a {{if .S}}title="x{{end}}>{{end}}` +
 	`{{define "cb"}}<i>{{template "bad" .}}</i>{{end}}` +
+	`{{define "hs"}}{{.Y}}{{if has "a"}}<i>{{.S}}</i>{{end}}{{names}}{{.Y}}{{end}}` +
+	`{{define "q"}}<a href="/p?q={{.S}}">{{.Y}}<a href="{{.S}}">t</a>{{end}}` +
 	`ROOT{{template "a" .}}`
 
 func scenarios() []scenario {
@@ -118,6 +120,16 @@ func scenarios() []scenario {
 			{{Kind: "tohtml", Name: "b", Data: 3}, {Kind: "exec", Name: "c", Data: 2}},
 			{{Kind: "execroot", Data: 3}},
 		}},
+		{"S10-lookup-from-a-function-during-execution", baseDefs, [][]call{
+			{{Kind: "exec", Name: "hs", Data: 0}},
+			{{Kind: "exec", Name: "b", Data: 0}},
+			{{Kind: "tohtml", Name: "hs", Data: 1}},
+		}},
+		{"S11-url-escaping-in-parallel", baseDefs, [][]call{
+			{{Kind: "exec", Name: "q", Data: 0}},
+			{{Kind: "tohtml", Name: "q", Data: 0}},
+			{{Kind: "exec", Name: "q", Data: 2}},
+		}},
 		{"S7-execute-same-root-first-and-repeated", baseDefs, [][]call{
 			{{Kind: "execroot", Data: 0}},
 			{{Kind: "execroot", Data: 1}, {Kind: "execroot", Data: 0}},
@@ -138,7 +150,13 @@ func (w *yieldWriter) Write(p []byte) (int, error) {
 }
 
 func build(sc *scenario) *template.Template {
-	t, err := template.New("root").ParseFromTrustedTemplate(tuc.TrustedTemplateFromStringKnownToSatisfyTypeContract(sc.Defs))
+	var root *template.Template
+	// has / names call back into the set while one of its templates is executing
+	root = template.New("root").Funcs(template.FuncMap{
+		"has":   func(name string) bool { return root.Lookup(name) != nil },
+		"names": func() int { return len(root.Templates()) },
+	})
+	t, err := root.ParseFromTrustedTemplate(tuc.TrustedTemplateFromStringKnownToSatisfyTypeContract(sc.Defs))
 	if err != nil {
 		panic(err)
 	}
@@ -436,6 +454,7 @@ func main() {
 		threadsDesc = append(threadsDesc, fmt.Sprintf("T%d: %s", ti, strings.Join(cs, "; ")))
 	}
 	seenViol := map[string]bool{}
+	compromised := false
 	check := func(x execution, sched []int8) {
 		rep.Schedules++
 		rep.Decisions += int64(len(x.res.Trace))
@@ -456,6 +475,7 @@ func main() {
 		}
 		if x.res.Deadlock {
 			add("deadlock", "no enabled thread while some thread is unfinished")
+			compromised = true // the aborted threads of this execution may still hold real locks
 		}
 		if x.res.Overflow {
 			add("harness", "trace overflow")
@@ -463,7 +483,7 @@ func main() {
 		if x.res.BadChoice {
 			add("harness", "schedule prefix diverged (choice out of range)")
 		}
-		if strings.Contains(x.vector, "PANIC") {
+		if strings.Contains(x.vector, "PANIC") && !x.res.Deadlock {
 			add("panic", x.vector)
 		}
 		if !x.res.Deadlock && !seq[x.vector] && !strings.Contains(x.vector, "PANIC") {
@@ -474,7 +494,7 @@ func main() {
 			lastLog = sz
 		}
 		// determinism: replay the first 100 schedules
-		if rep.Schedules <= 100 {
+		if rep.Schedules <= 100 && !compromised {
 			y := runOnce(sc, sched)
 			if y.vector != x.vector || len(y.res.Trace) != len(x.res.Trace) {
 				add("harness", "replay of the same schedule diverged")
